@@ -21,8 +21,8 @@
    (the server's qid counter; StartQuery's own duplicate check looks at the running table only).
    The pre-fix behaviour is documented at the end by C17_prefix_*_refuted (model [step_prefix]). *)
 From Coq Require Import List Sorted.
-From SigM Require Import Base QueryLife EvalIdx.
-From SigP Require Import BaseProofs QueryLifeProofs EvalIdxProofs.
+From SigM Require Import Base QueryLife EvalIdx MetricsLife.
+From SigP Require Import BaseProofs QueryLifeProofs EvalIdxProofs MetricsLifeProofs.
 From Coq Require String.
 From SigM Require LockTrace LockOrder.
 From SigG Require GenLocks.
@@ -261,6 +261,102 @@ Theorem C17_send_under_query_lock_refuted :
     exec full ps' [] (script (LPull None)) <> None.
 Proof. exact send_under_query_lock_refuted. Qed.
 Print Assumptions C17_send_under_query_lock_refuted.
+
+(* ---------- metrics requests (PromQL): executor + state-manager goroutines over the query tables ----------
+   Model SigM.MetricsLife (pkg/segment/segexecution.go: ExecuteMetricsQuery = KSingle,
+   ExecuteMultipleMetricsQuery = KMulti, manageStateForMetricsQuery): a request runs the selectors
+   with the qids [R] one after the other (StartQuery queued, wait for READY, start the state manager,
+   search, early return "query is cancelled" when the query was flagged - KMulti only -, else COMPLETE);
+   the state manager of a qid is the only reader of its channel and the only caller of DeleteQuery
+   (CANCELLED | TIMEOUT: flag, delete, leave; ERROR | COMPLETE: delete, leave).  A schedule [ops] says
+   which goroutine moves next: XStep (executor to its next blocking point), MStep q (the manager of q
+   takes one message), EPull, ECancel q, EFire q (timeout), EOther o (any table operation of other
+   queries).  [rule] = true is the code; false is the variant "only flag on CANCELLED / TIMEOUT and
+   keep listening" (seed C17e), used by the refuted statement.  Every table effect goes through
+   QueryLife.step, so the theorems above hold for the tables of every metrics run. *)
+Theorem C17_metrics_tables_are_query_tables : forall rule k R mx ops,
+  m_q (mrun rule k R mx (minit R) ops) = run mx init (mtrace rule k R mx (minit R) ops).
+Proof. exact metrics_tables_are_query_tables. Qed.
+Print Assumptions C17_metrics_tables_are_query_tables.
+
+Theorem C17_metrics_admission_bound : forall rule k R mx ops,
+  nonforced (running (m_q (mrun rule k R mx (minit R) ops))) <= mx /\
+  length (waiting (m_q (mrun rule k R mx (minit R) ops))) <= MAX_WAITING.
+Proof. exact metrics_admission_bound. Qed.
+Print Assumptions C17_metrics_admission_bound.
+
+(* FULL statement: for every request (one or many selectors, distinct qids), every limit and EVERY
+   schedule - cancel or timeout at any moment, any number of times, any other traffic -: once the
+   request has been answered and every live state manager waits on an empty channel, no entry of any
+   of its qids is in allRunningQueries or waitingQueries, no state manager and no timeout watcher of
+   it is alive ([clean]) *)
+Theorem C17_metrics_nothing_left_after_answer : forall R k mx ops, NoDup R ->
+  let s := mrun true k R mx (minit R) ops in
+  answered s = true -> quiescent s = true -> clean R s = true.
+Proof. exact metrics_no_leak. Qed.
+Print Assumptions C17_metrics_nothing_left_after_answer.
+
+(* ... and the managers do get there: after the answer, letting every live manager take exactly the
+   messages that are already in its channel ([drain_ops], no other step) leaves nothing *)
+Theorem C17_metrics_state_managers_finish : forall R k mx ops, NoDup R ->
+  let s := mrun true k R mx (minit R) ops in
+  answered s = true -> clean R (mrun true k R mx s (drain_ops s)) = true.
+Proof. exact metrics_managers_finish. Qed.
+Print Assumptions C17_metrics_state_managers_finish.
+
+(* the first message an admitted metrics query reads is READY (the early return "Did not receive
+   ready state", which starts no state manager, only happens to a query cancelled while waiting,
+   whose entry CancelQuery has removed) *)
+Theorem C17_metrics_first_message_is_ready : forall R k mx ops q e, NoDup R ->
+  let s := mrun true k R mx (minit R) ops in
+  m_pc s = PWaitReady q -> lookup q (running (m_q s)) = Some e -> exists c', e_chan e = READY :: c'.
+Proof. exact metrics_first_message_is_ready. Qed.
+Print Assumptions C17_metrics_first_message_is_ready.
+
+(* non-vacuity: `a + b` cancelled / timed out during the search of its first selector is answered as
+   cancelled, is quiescent and clean, and the next query of anybody is admitted *)
+Theorem C17_metrics_nothing_left_witnesses :
+  forall w, w = leak_cancel \/ w = leak_timeout ->
+  let s := mrun true KMulti [7; 8]%N 1 (minit [7; 8]%N) w in
+  m_pc s = PDone RCancelled /\ quiescent s = true /\ clean [7; 8]%N s = true /\
+  let s2 := mrun true KMulti [7; 8]%N 1 s [EOther (Start 9 false false); EPull] in
+  in_table 9 (running (m_q s2)) = true.
+Proof. exact metrics_no_leak_witnesses. Qed.
+Print Assumptions C17_metrics_nothing_left_witnesses.
+
+(* REFUTED for the variant rule = false (the state manager only flags the query on CANCELLED /
+   TIMEOUT and relies on the executor's COMPLETE): the same two schedules end answered and quiescent
+   with the entry of qid 7, its manager (and for the cancel its watcher) left behind, and with
+   MAX_RUNNING_QUERIES = 1 a later query of anybody is never admitted *)
+Theorem C17_metrics_flag_only_manager_refuted :
+  forall w, w = leak_cancel \/ w = leak_timeout ->
+  let s := mrun false KMulti [7; 8]%N 1 (minit [7; 8]%N) w in
+  m_pc s = PDone RCancelled /\ quiescent s = true /\ clean [7; 8]%N s = false /\
+  in_table 7 (running (m_q s)) = true /\ m_mgrs s = [7%N] /\
+  let s2 := mrun false KMulti [7; 8]%N 1 s (drain_ops s ++ [EOther (Start 9 false false); EPull; EPull]) in
+  in_table 9 (waiting (m_q s2)) = true /\ in_table 9 (running (m_q s2)) = false.
+Proof. exact flag_only_manager_leaks_refuted. Qed.
+Print Assumptions C17_metrics_flag_only_manager_refuted.
+
+(* ... and it stays so WHATEVER happens later (any schedule [ops]: further cancels, timeouts, pulls,
+   manager steps, traffic of other queries): the entry of qid 7 never leaves allRunningQueries, so
+   with MAX_RUNNING_QUERIES = 1 the admission test of the puller is false for good *)
+Theorem C17_metrics_flag_only_manager_entry_stays_forever : forall w ops,
+  w = leak_cancel \/ w = leak_timeout ->
+  let s := mrun false KMulti [7; 8]%N 1 (minit [7; 8]%N) (w ++ ops) in
+  in_table 7 (running (m_q s)) = true /\ answered s = true /\
+  Nat.ltb (length (running (m_q s))) 1 = false.
+Proof. exact flag_only_manager_entry_stays_forever. Qed.
+Print Assumptions C17_metrics_flag_only_manager_entry_stays_forever.
+
+(* the variant is harmless for ExecuteMetricsQuery on the same schedule (COMPLETE is always sent):
+   the defect lives in the pair "manager relies on COMPLETE" + "early return before COMPLETE" *)
+Theorem C17_metrics_flag_only_single_selector_witness :
+  let s := mrun false KSingle [7%N] 1 (minit [7%N]) leak_cancel in
+  let s' := mrun false KSingle [7%N] 1 s (drain_ops s) in
+  m_pc s = PDone RCancelled /\ clean [7%N] s' = true.
+Proof. exact flag_only_manager_single_selector_witness. Qed.
+Print Assumptions C17_metrics_flag_only_single_selector_witness.
 
 (* ---------- regression witnesses of the repaired defects, and non-vacuity ---------- *)
 Theorem C17_fixed_witnesses :
